@@ -4,15 +4,88 @@ import json, os, sys
 ROOT = os.path.dirname(os.path.dirname(os.path.abspath(__file__)))
 
 # id -> (technique, level text, level note, design ref)
+PBT = "property-based testing (proptest strategies, seeded ChaCha, 16 worker processes, shrinking + greedy post-shrink)"
+ENUM = "small-scope exhaustive enumeration"
+def L(what, bound):
+    return ("Generated-input search against an explicit oracle: " + what + " Bounds: " + bound +
+            " A green run means no counter-example among the cases counted in the evidence file (exhaustive only where the evidence says so); it is not a proof.")
 CLAIMED = {
- "C03": ("property-based testing (proptest, seeded, multi-process) + small-scope exhaustive enumeration; oracle: dynamic-programming shortest-walk reference",
-         "Generated-input search: DijkstraDist::distances() and the Dijkstra/DijkstraDist item sequences are compared with an independent walk-length dynamic programme on tens of thousands of generated weighted digraphs (all weight classes, empty/single/multiple sources) and on every digraph of order <=3 (quick) / <=4 (thorough) with weights 0,1,2. No proof: absence of a counter-example among the cases the evidence file counts.",
-         "Trusts the reference dynamic programme in harness/src/model.rs (cross-checked against simple-path enumeration), proptest's generators, and that walk sums stay below usize::MAX as the property requires.",
+ "C01": (PBT + "; stateful / model-based: generated operation histories interpreted against a BTreeSet model after every step",
+         L("operation histories (add_arc, add_arc_weighted, remove_arc, toggle with valid and invalid arguments) on six representations from five kinds of start digraph are applied to the implementation and to a plain set-of-arcs model; after every step order, vertices, arcs, weights, size, has_arc and arc_weight over all pairs are compared, rejected calls must panic and change nothing, and the final digraph must == one built afresh.", "order <= 24/70, <= 40/120 steps."),
+         "Trusts the BTreeMap model and the per-representation admission rule written from the property text; panic messages are not compared.",
+         "DESIGN.md section 4, C01"),
+ "C02": (PBT + " + " + ENUM + "; oracle: direct definitions over the abstract arc set",
+         L("every query of the property (order ... max/min degrees, has_walk on genuine, corrupted and out-of-V vertex sequences, total queries on ids outside V) is compared with its definition on five representations and on non-contiguous AdjacencyMap digraphs, under a generated CPU count; the digraph must be unchanged afterwards.", "order <= 40/130; all digraphs of order <= 3/4 exhaustively."),
+         "Trusts the definitions in harness/src/model.rs; queries documented to panic outside V are only called inside V.",
+         "DESIGN.md section 4, C02"),
+ "C03": (PBT + " + " + ENUM + "; oracle: dynamic-programming shortest-walk reference",
+         L("DijkstraDist::distances() and the Dijkstra / DijkstraDist item sequences are compared with an independent walk-length dynamic programme (exact distances, usize::MAX exactly at unreachable vertices, each reachable vertex once, none unreachable, non-decreasing distance).", "order <= 12/40, weights up to 2^40; every digraph of order <= 3 (quick) / <= 4 (thorough) with weights 0,1,2 exhaustively."),
+         "Trusts the reference dynamic programme (cross-checked against simple-path enumeration) and that walk sums stay below usize::MAX as the property requires.",
          "DESIGN.md section 4, C03"),
- "C06": ("property-based testing (proptest) + small-scope exhaustive enumeration; oracle: depth-first-preorder validity predicate over the yielded sequence; known finding attributed by simulation and searched behind",
-         "Generated-input search over digraphs x source lists x five representations x {Dfs, DfsDist, DfsPred, predecessors()}: every yielded item must be a legal next vertex of a depth-first preorder with the right predecessor/depth, and the yielded set must be the reachable set. The recorded defect KF-C06-1 (early None) is attributed by exact comparison with a simulation of the defect and the search continues behind it by resuming the iterator.",
-         "Trusts the validity predicate (it accepts every depth-first preorder, whichever neighbour or source is taken first) and known_findings.json. Exhaustive only for order <=3/4.",
+ "C04": (PBT + " + " + ENUM + "; oracle: level-set hop distances",
+         L("Bfs / BfsDist sequences and BfsDist::distances() on five representations are compared with level sets computed from the definition.", "order <= 16/60; all digraphs of order <= 3/4 x 13 source lists exhaustively."),
+         "Order within a level is free; sources are distinct and in range.",
+         "DESIGN.md section 4, C04"),
+ "C05": (PBT + " + " + ENUM + "; oracle: validity predicates over trees and paths with reference distances",
+         L("BfsPred / DijkstraPred predecessors(), item sequences, shortest_path(T) and BfsPred::cycles() are judged by validity predicates (tight arcs dist(u)+w=dist(v); None iff no reachable target; path is a walk from a source to a target of minimum length/weight; every cycle is elementary).", "order <= 12/40; all digraphs of order <= 3 with weights 1,2 x sources x target subsets exhaustively."),
+         "Which of several optimal answers is returned is free; cycles() completeness is not claimed (disclaimed by the docs).",
+         "DESIGN.md section 4, C05"),
+ "C06": (PBT + " + " + ENUM + "; oracle: depth-first-preorder validity predicate; known finding attributed by simulation and searched behind",
+         L("every item yielded by Dfs, DfsDist, DfsPred and the forest of predecessors() on five representations must be a legal next step of a depth-first preorder with the right predecessor / depth, and the yielded set must be the reachable set. The recorded defect KF-C06-1 (early None) is attributed by exact comparison with a simulation of the defect; the search continues behind it by resuming the iterator.", "order <= 16/60; all digraphs of order <= 3/4 x 13 source lists exhaustively."),
+         "Trusts the validity predicate (accepts every depth-first preorder) and known_findings.json.",
          "DESIGN.md section 4, C06"),
+ "C07": (PBT + " + " + ENUM + "; oracle: dynamic-programming shortest-walk reference incl. negative-circuit detection; differential vs Dijkstra",
+         L("BellmanFordMoore::distances() must be None when the reference finds a negative circuit reachable from the source, Some when the digraph has none, and exact whenever Some; arc counts of every residue mod 4, reverse paths needing |V|-1 sweeps, planted negative / zero circuits.", "order <= 14/48, |w| < 100; all digraphs of order <= 3 with weights -1,0,2 x sources exhaustively."),
+         "When a negative circuit exists but is unreachable from the source both None and a correct Some are accepted (the property leaves it open).",
+         "DESIGN.md section 4, C07"),
+ "C08": (PBT + " + " + ENUM + "; oracle: per-source dynamic programme; differential vs Bellman-Ford-Moore and Dijkstra",
+         L("every cell of FloydWarshall::distances() is compared with the reference run from every vertex on digraphs constructed without negative circuits (negative arcs via potentials, zero circuits, unreachable pairs).", "order <= 12/40; all digraphs of order <= 3 with weights -1,0,2 without negative circuit exhaustively."),
+         "Digraphs with a negative circuit are outside the property and never generated.",
+         "DESIGN.md section 4, C08"),
+ "C09": (PBT + " + " + ENUM + "; oracle: transitive-closure SCCs",
+         L("Tarjan::components() on five representations and on non-contiguous AdjacencyMap digraphs must be pairwise disjoint, cover V and equal the mutual-reachability classes.", "order <= 14/60; all digraphs of order <= 4 (quick) / <= 5 (thorough) exhaustively."),
+         "Order of components is free.",
+         "DESIGN.md section 4, C09"),
+ "C10": (ENUM + " + " + PBT + "; oracle: brute-force enumeration of simple closed paths",
+         L("Johnson75::circuits() must contain no duplicate, only elementary circuits written from their smallest vertex, and equal the brute-force set.", "every digraph of order <= 4 (quick) / <= 5 (thorough, 2^20) exhaustively; random order <= 7."),
+         "Order is capped at 7 because the reference is exponential; list order is free.",
+         "DESIGN.md section 4, C10"),
+ "C11": (PBT + " + " + ENUM + "; oracle: set definitions + metamorphic relations (involution, commutativity, associativity, idempotence); CPU count set per case",
+         L("complement, converse, union and filter_vertices on every representation that implements them, including pairs of non-contiguous AdjacencyMap digraphs, are compared with their set definitions under a generated CPU count with row counts chosen relative to it; operands must be unchanged, results valid.", "order <= 40/100; all pairs of digraphs of order <= 3 exhaustively."),
+         "Union of fixed-order representations is judged with V = 0..max(order); filter selections always keep a vertex.",
+         "DESIGN.md section 4, C11"),
+ "C12": (PBT + " + " + ENUM + "; oracle: definitions over the abstract arc set; near-miss generators",
+         L("is_complete, is_semicomplete, is_tournament, is_regular, is_balanced, is_symmetric, is_oriented, is_simple, is_subdigraph, is_superdigraph, is_spanning_subdigraph on five representations and relabelled non-contiguous AdjacencyMap digraphs, with generators aimed at near misses (size-preserving non-tournaments, one-pair / one-arc perturbations, foreign arc or vertex).", "order <= 40/90, CPU count 1..16."),
+         "Order-0 digraphs are not exercised.",
+         "DESIGN.md section 4, C12"),
+ "C14": (ENUM + " of the parameter box + " + PBT + " for larger orders; oracle: closed-form arc sets",
+         L("every deterministic generator at every order in the box, in four representations and several CPU counts, is compared with the closed form written from the property text; the representations must agree; inadmissible parameters must panic.", "orders 0..96 (quick) / 0..200 (thorough) exhaustively, (m, n) up to 24/40 squared, random orders up to 300/600."),
+         "Trusts closed_form() in harness/src/model.rs as a transcription of the property.",
+         "DESIGN.md section 4, C14"),
+ "C15": (PBT + " + small enumeration; oracle: structural validity predicates + repeatability (three calls, one from a fresh thread); CPU count set per case",
+         L("random_tournament, random_recursive_tree and erdos_renyi in four representations: structural validity, p = 0 / p = 1, panics for p outside [0, 1] (incl. NaN, infinities), equal results for equal arguments in one configuration, next_f64 in [0, 1).", "order <= 64/130, any u64 seed, CPU count 1..16."),
+         "The concrete digraph per seed and equality across representations / thread counts are deliberately not asserted.",
+         "DESIGN.md section 4, C15"),
+ "C16": (PBT + "; oracle: round trips and the abstract model",
+         L("all 12 conversions among the unweighted representations (round trips ==), the 8 conversions into AdjacencyListWeighted (weights 1), chains of 2..4 conversions, From<rows> and From<arcs> with valid inputs (duplicates, arbitrary order) and invalid ones (self-loop, out-of-range head, empty).", "order <= 24/70."),
+         "An empty arc iterator for EdgeList::from is only required to give a digraph with at least one vertex.",
+         "DESIGN.md section 4, C16"),
+ "C17": (PBT + " + enumeration over (n, k); oracle: single-threaded definition, identical for every CPU count and repetition; CPU count set with sched_setaffinity before each call",
+         L("the eight threaded operations are executed under every CPU count 1..16, with row counts below / equal / just above / far above the count and not a multiple of the chunk size, several times each, and compared with the definition (seeded AdjacencyMap generators: validity and repeatability within one configuration).", "rows <= 60/130, 3/10 repetitions; complete(n) and complement(path(n)) for every n <= 64 x k <= 16 exhaustively."),
+         "Natively only the CPU count and repetition vary the interleaving; a race needing a specific preemption on a large input can be missed.",
+         "DESIGN.md section 4, C17"),
+ "C18": (PBT + " + " + ENUM + "; oracle: definitions of the metrics over the written cells",
+         L("matrices written through IndexMut into DistanceMatrix::new for isize and usize (ties, all-infinite rows, small and MAX infinity) and matrices returned by FloydWarshall: eccentricities, diameter, center, periphery, is_connected, (u, v) addressing, new().", "order <= 8; all 3x3 matrices over a 3-symbol alphabet exhaustively."),
+         "Entries never exceed the matrix's infinity value, as the property requires.",
+         "DESIGN.md section 4, C18"),
+ "C19": (PBT + " + " + ENUM + "; oracle: reference chain walk with a visited set; termination decided by a call-counting predicate, not a clock",
+         L("search_by / search on trees, rho-shapes, pure cycles and self-referential vectors with three predicate families; the predicate panics after 2*len+4 calls, which turns non-termination into a deterministic failure.", "length <= 12; every vector of length <= 4 (quick) / <= 5 (thorough) x start x target exhaustively."),
+         "Entries are in range (out-of-range entries belong to C13); predicates are pure.",
+         "DESIGN.md section 4, C19"),
+ "C20": (PBT + "; oracle: abstract digraph equality over pairs of construction histories",
+         L("the same / a near-identical abstract digraph is built along two of six history styles in six representations; ==, !=, cmp, partial_cmp and DefaultHasher output must follow the abstract digraph; a clone must be equal and independent under a generated mutation; is_complete of matrix / edge list on digraphs that became complete through histories.", "order <= 20/64."),
+         "DefaultHasher is the hash observer.",
+         "DESIGN.md section 4, C20"),
 }
 NOT_YET = {}
 
